@@ -647,6 +647,48 @@ def exact_inverse(A):
     return [row[n:] for row in M]
 
 
+def exact_rank(A):
+    """rank of a matrix of internal scalars, exactly over Q(i)"""
+    Zc = (Fraction(0), Fraction(0))
+    M = [[frac(x) for x in row] for row in A]
+    rk, rows, cols = 0, len(M), len(M[0]) if M else 0
+    for c in range(cols):
+        piv = next((i for i in range(rk, rows) if M[i][c] != Zc), None)
+        if piv is None:
+            continue
+        M[rk], M[piv] = M[piv], M[rk]
+        inv = _c_inv(M[rk][c])
+        for i in range(rk + 1, rows):
+            if M[i][c] != Zc:
+                f = _c_mul(M[i][c], inv)
+                M[i] = [_c_sub(x, _c_mul(f, y)) for x, y in zip(M[i], M[rk])]
+        rk += 1
+    return rk
+
+
+def gram_pivots(A):
+    """[(s_j, ||a_j||^2)] for the columns a_j of A, s_j = squared distance of a_j from span(a_0..a_{j-1}) (exact: the pivots of
+    Gaussian elimination without pivoting on the Gram matrix A^H A; stops at the first zero pivot)"""
+    m, n = len(A), len(A[0]) if A else 0
+    F = [[frac(x) for x in row] for row in A]
+    G = [[(sum((F[k][i][0] * F[k][j][0] + F[k][i][1] * F[k][j][1] for k in range(m)), Fraction(0)),
+           sum((F[k][i][0] * F[k][j][1] - F[k][i][1] * F[k][j][0] for k in range(m)), Fraction(0))) for j in range(n)] for i in range(n)]
+    norms = [G[j][j][0] for j in range(n)]
+    out = []
+    Zc = (Fraction(0), Fraction(0))
+    for c in range(n):
+        d = G[c][c][0]
+        out.append((d, norms[c]))
+        if d <= 0:
+            break
+        inv = _c_inv(G[c][c])
+        for i in range(c + 1, n):
+            if G[i][c] != Zc:
+                f = _c_mul(G[i][c], inv)
+                G[i] = [_c_sub(x, _c_mul(f, y)) for x, y in zip(G[i], G[c])]
+    return out
+
+
 def _round_dyadic(x, bits):
     if x == 0:
         return (0, 0)
@@ -762,6 +804,39 @@ try:
     @_findings.predicate("la_lu_cache_history")
     def _p4(inp):
         return inp.get("task", {}).get("op") == "lu_cache" and "prec0" in inp.get("task", {})
+
+    @_findings.predicate("la_svd_wide_rank_deficient")
+    def _p7(inp):
+        """svd of a WIDE matrix (rows < columns) whose exact or numerical rank is below the number of rows (an exactly zero singular
+        value is returned), the only failing part being the orthonormality of U (svd_r_raw / svd_c_raw work on n singular values, the sort cannot tell the exactly zero singular
+        values that carry a column of U from the n-m padding ones: a zero column of U is returned)"""
+        t = inp.get("task", {})
+        A = from_toks(t.get("A", []))
+        ans = inp.get("answers", {})
+        if not (t.get("op") in ("svd", "svd_r", "svd_c") and A and len(A) < len(A[0]) and ans.get("cert") == "V:violates:orthU"
+                and all(v == "V:ok" or k in ("cert", "orthUfull") for k, v in ans.items())):
+            return False
+        # rank deficient exactly, or numerically: an exactly zero singular value was returned
+        Sg = ((inp.get("result") or {}).get("ok") or {}).get("S") or []
+        return exact_rank(A) < len(A) or any(row[0] == "0" for row in Sg)
+
+    @_findings.predicate("la_absolute_singularity_threshold")
+    def _p8(inp):
+        """qr_solve (householder: `abs(s) > eps`) and the overdetermined branch of lu_solve (cholesky of A^H A: `s < eps`) compare
+        the squared distance s_j of column j from the span of the previous columns with the ABSOLUTE eps of the working
+        precision p+10: the exception is attributed to that test when, exactly, some s_j <= 2^-(p+8) although the relative
+        test s_j / ||a_j||^2 > 2^-(p+8) would pass"""
+        t = inp.get("task", {})
+        if inp.get("tag") != "exception_wellcond" or t.get("op") not in ("qr_solve", "lu_solve"):
+            return False
+        A = from_toks(t.get("A", []))
+        if t["op"] == "lu_solve" and len(A) == len(A[0]):
+            return False
+        msg = str(inp.get("result", {}).get("msg", ""))
+        if not ("numerically singular" in msg or "not positive-definite" in msg):
+            return False
+        thr = Fraction(1, 2 ** (t["prec"] + 8))
+        return any(sj <= thr and sj > thr * nj for sj, nj in gram_pivots(A))
 except ImportError:  # worker process: findings not needed
     pass
 
